@@ -207,7 +207,8 @@ def run(ctx):
             where(pm, pm.node), facts=["width=%s" % env.get("@return")])
     loops = [st for st in pm.body if isinstance(st, ast.For)]
     need(len(loops) == 1, "block loop not found in pure_murmur2")
-    kdef = [st for st in loops[0].body if isinstance(st, ast.Assign) and unparse(st.targets[0]) == "k"]
+    kdef = [st for st in loops[0].body if isinstance(st, ast.Assign) and sum(
+        1 for x in ast.walk(st.value) if isinstance(x, ast.Subscript) and unparse(x.value) == pm.params[0]) >= 4]
     place = set()
     if kdef:
         for x in ast.walk(kdef[0].value):
@@ -221,7 +222,10 @@ def run(ctx):
                 place.add((off, sh))
     r.check(place == {(0, 0), (1, 8), (2, 16), (3, 24)}, "%s#block-byte-placement" % PM, "block bytes are not placed little-endian at bit offsets 0/8/16/24: %s" % sorted(place),
             where(pm, loops[0]), "every key of length >= 4 hashes differently from Java")
-    tail = [st for st in pm.body if isinstance(st, ast.If) and "extra_bytes" in norm(st.test)]
+    ebv = [unparse(st.targets[0]) for st in pm.body if isinstance(st, ast.Assign) and isinstance(st.value, ast.BinOp) and isinstance(
+        st.value.op, ast.Mod) and _const_val(st.value.right, {}) == 4]
+    ebn = ebv[0] if ebv else "extra_bytes"
+    tail = [st for st in pm.body if isinstance(st, ast.If) and ebn in norm(st.test)]
     tinfo = []
     for st in tail:
         off = sh = None
@@ -234,11 +238,13 @@ def run(ctx):
                     if isinstance(y, ast.BinOp) and isinstance(y.op, ast.LShift) and any(z is x for z in ast.walk(y.left)):
                         sh = _const_val(y.right, {})
         tinfo.append((norm(st.test), off, sh, mult))
-    want = [("extra_bytes == 3", 2, 16, False), ("extra_bytes >= 2", 1, 8, False), ("extra_bytes >= 1", 0, 0, True)]
+    want = [("%s == 3" % ebn, 2, 16, False), ("%s >= 2" % ebn, 1, 8, False), ("%s >= 1" % ebn, 0, 0, True)]
     r.check(tinfo == want, "%s#tail-fallthrough" % PM, "tail handling is not the 3->2->1 fall-through with the multiply in the last arm: %s" % tinfo,
             where(pm, tail[0] if tail else pm.node), "keys whose length is not a multiple of 4 hash differently from Java")
     finals = [_const_val(e.right, consts) for e, w in W.shift_operands if e not in [x for x in ast.walk(loops[0])]]
-    got = {"seed": seed_default, "m": consts.get("m"), "r": consts.get("r"), "shift1": finals[0] if len(finals) > 0 else None,
+    mul = [st.value.id for st in loops[0].body if isinstance(st, ast.AugAssign) and isinstance(st.op, ast.Mult) and isinstance(st.value, ast.Name)]
+    shr = [x.right.id for st in loops[0].body for x in ast.walk(st) if isinstance(x, ast.BinOp) and isinstance(x.op, ast.RShift) and isinstance(x.right, ast.Name)]
+    got = {"seed": seed_default, "m": consts.get(mul[0]) if mul else None, "r": consts.get(shr[0]) if shr else None, "shift1": finals[0] if len(finals) > 0 else None,
            "shift2": finals[1] if len(finals) > 1 else None, "positive": mask}
     r.check(got == JAVA, "%s#java-constants" % PM, "constants differ from Kafka's Utils.murmur2: %s" % {k: (hex(v) if isinstance(v, int) else v) for k, v in got.items() if JAVA[k] != v},
             where(pm, pm.node), "producers in the two languages no longer co-locate a key")
